@@ -25,6 +25,9 @@ def main():
     except ModuleNotFoundError:
         print("no check for %s" % prop, file=sys.stderr)
         return 2
+    # the repository hook is only needed by the translation-validation check; everything else runs with the guard off
+    if prop not in ("C08",):
+        os.environ.pop("FORMAK_VERIF", None)
     ctx = common.Ctx(prop, a.tier, seed)
     try:
         if a.replay:
